@@ -7,16 +7,27 @@ import (
 
 // Cooperative replacements for sync.Mutex, sync.RWMutex and sync.Once. The
 // instrumenter substitutes them for the sync types in the gohbase packages
-// (type positions only; the call sites are unchanged). In controlled mode a
-// managed goroutine that finds the lock held parks in the simulator and
-// becomes eligible again when the lock is free, so a goroutine may park at a
-// scheduling point *inside* a critical section or inside Once.Do without
-// anybody blocking on a real mutex (which synctest would not treat as durably
-// blocked). Outside controlled mode they behave like the sync types.
+// (type positions only; the call sites are unchanged).
+//
+// Outside free mode the lock *is* the lockState below, protected by the
+// package mutex; no real sync.Mutex is ever held across a scheduling point:
+//   - a managed goroutine that finds the lock held parks in the simulator and
+//     becomes eligible again when the lock is free, so a goroutine may park at
+//     a scheduling point *inside* a critical section or inside Once.Do;
+//   - an unmanaged goroutine, and every goroutine once the run has been freed
+//     for teardown, waits on a channel that the next release closes. That is a
+//     durable block for synctest: a lock that the code under test leaked (a
+//     missing Unlock) ends the bubble with "blocked goroutines remain" instead
+//     of wedging the process on a real mutex, which synctest does not treat
+//     as durably blocked.
+//
+// In free (-race) mode they are the real sync types and nothing else.
 
 type lockState struct {
 	writer  *G
+	wheld   bool // write-held (writer may be nil for unmanaged holders)
 	readers int
+	waitCh  chan struct{} // closed by the next release; for channel waiters
 }
 
 // Mutex replaces sync.Mutex.
@@ -26,29 +37,26 @@ type Mutex struct {
 }
 
 func (m *Mutex) Lock() {
-	if g := acquire(&m.st, true); g != nil {
+	if freeMode.Load() {
 		m.real.Lock()
 		return
 	}
-	m.real.Lock()
+	acquire(&m.st, true)
 }
 
 func (m *Mutex) Unlock() {
+	if freeMode.Load() {
+		m.real.Unlock()
+		return
+	}
 	release(&m.st, true)
-	m.real.Unlock()
 }
 
 func (m *Mutex) TryLock() bool {
 	if freeMode.Load() {
 		return m.real.TryLock()
 	}
-	mu.Lock()
-	busy := m.st.writer != nil
-	mu.Unlock()
-	if busy {
-		return false
-	}
-	return m.real.TryLock()
+	return tryAcquire(&m.st, true)
 }
 
 // RWMutex replaces sync.RWMutex.
@@ -58,23 +66,35 @@ type RWMutex struct {
 }
 
 func (m *RWMutex) Lock() {
+	if freeMode.Load() {
+		m.real.Lock()
+		return
+	}
 	acquire(&m.st, true)
-	m.real.Lock()
 }
 
 func (m *RWMutex) Unlock() {
+	if freeMode.Load() {
+		m.real.Unlock()
+		return
+	}
 	release(&m.st, true)
-	m.real.Unlock()
 }
 
 func (m *RWMutex) RLock() {
+	if freeMode.Load() {
+		m.real.RLock()
+		return
+	}
 	acquire(&m.st, false)
-	m.real.RLock()
 }
 
 func (m *RWMutex) RUnlock() {
+	if freeMode.Load() {
+		m.real.RUnlock()
+		return
+	}
 	release(&m.st, false)
-	m.real.RUnlock()
 }
 
 // TryRLock is for the scheduler-side hooks: it never blocks.
@@ -82,74 +102,101 @@ func (m *RWMutex) TryRLock() bool {
 	if freeMode.Load() {
 		return m.real.TryRLock()
 	}
-	mu.Lock()
-	busy := m.st.writer != nil
-	mu.Unlock()
-	if busy {
-		return false
-	}
-	return m.real.TryRLock()
+	return tryAcquire(&m.st, false)
 }
 
-// acquire parks the calling managed goroutine until the lock can be taken
-// and records the acquisition. It returns nil for unmanaged callers.
-func acquire(st *lockState, write bool) *G {
-	if freeMode.Load() {
-		return nil
+func (st *lockState) free(write bool) bool {
+	return !st.wheld && (!write || st.readers == 0)
+}
+
+func (st *lockState) take(g *G, write bool) {
+	if write {
+		st.wheld = true
+		st.writer = g
+	} else {
+		st.readers++
 	}
+	if g != nil {
+		g.held++
+	}
+}
+
+func tryAcquire(st *lockState, write bool) bool {
+	id := rtGoid()
+	mu.Lock()
+	defer mu.Unlock()
+	if !st.free(write) {
+		return false
+	}
+	g := byGoid[id]
+	if g == root {
+		g = nil
+	}
+	st.take(g, write)
+	return true
+}
+
+// acquire takes the lock, waiting as long as needed.
+func acquire(st *lockState, write bool) {
 	id := rtGoid()
 	for {
 		mu.Lock()
 		g := byGoid[id]
-		if g == nil || g == root || !active {
-			mu.Unlock()
-			return nil
-		}
-		free := st.writer == nil && (!write || st.readers == 0)
-		if free {
-			if write {
-				st.writer = g
-			} else {
-				st.readers++
+		managed := g != nil && g != root && active
+		if st.free(write) {
+			if !managed {
+				g = nil
 			}
-			g.held++
+			st.take(g, write)
 			mu.Unlock()
-			return g
+			return
 		}
-		// contended: park until the scheduler sees the lock free
-		g.waitLock = st
-		g.waitWrite = write
-		g.parked = true
-		lockWaits++
-		ch := idle
+		if managed {
+			// contended: park until the scheduler sees the lock free
+			g.waitLock = st
+			g.waitWrite = write
+			g.parked = true
+			lockWaits++
+			ch := idle
+			mu.Unlock()
+			select {
+			case ch <- struct{}{}:
+			default:
+			}
+			<-g.wake
+			continue
+		}
+		// unmanaged, or the run has been freed: wait durably for a release
+		if st.waitCh == nil {
+			st.waitCh = make(chan struct{})
+		}
+		ch := st.waitCh
 		mu.Unlock()
-		select {
-		case ch <- struct{}{}:
-		default:
-		}
-		<-g.wake
+		<-ch
 	}
 }
 
 func release(st *lockState, write bool) {
-	if freeMode.Load() {
-		return
-	}
 	id := rtGoid()
 	mu.Lock()
 	g := byGoid[id]
 	if write {
-		if st.writer != nil {
-			st.writer = nil
-			if g != nil && g.held > 0 {
-				g.held--
+		if st.wheld {
+			st.wheld = false
+			if st.writer != nil && st.writer.held > 0 {
+				st.writer.held--
 			}
+			st.writer = nil
 		}
 	} else if st.readers > 0 {
 		st.readers--
-		if g != nil && g.held > 0 {
+		if g != nil && g != root && g.held > 0 {
 			g.held--
 		}
+	}
+	if st.waitCh != nil {
+		close(st.waitCh)
+		st.waitCh = nil
 	}
 	mu.Unlock()
 }
@@ -159,8 +206,7 @@ func (g *G) eligible() bool {
 	if g.waitLock == nil {
 		return true
 	}
-	st := g.waitLock
-	return st.writer == nil && (!g.waitWrite || st.readers == 0)
+	return g.waitLock.free(g.waitWrite)
 }
 
 // Once replaces sync.Once.
